@@ -15,7 +15,7 @@ vars == <<i, cur, bad, cnt>>
 
 Clauses(e, prev) ==
   LET base == SurgeryClauses(e) IN
-  IF e.err = "" /\ e.pos > 1 /\ prev # <<>> THEN base @@ [PreStateMatches |-> e.pre[1] = prev] ELSE base
+  IF e.err = "" /\ e.pos > 1 /\ prev # <<>> THEN base @@ [PreStateMatches |-> e.self \in DOMAIN e.pre /\ e.pre[e.self] = prev] ELSE base
 
 Bump(c, r) == [k \in DOMAIN c \cup DOMAIN r |->
                  (IF k \in DOMAIN c THEN c[k] ELSE 0) + (IF k \in DOMAIN r THEN 1 ELSE 0)]
@@ -31,7 +31,7 @@ Step == /\ i <= N
                                   [sid |-> e.sid, pos |-> e.pos, clause |-> SetToSeq(Failed(r))[k]]]
               /\ cnt' = Bump(Bump(cnt, r), OpCount(e))
               /\ cur' = IF e.err # "" \/ Len(e.post) = 0 \/ Len(e.pre) = 0 THEN <<>>
-                        ELSE IF e.op = "trace" THEN e.pre[1]       \* the chain goes on with the traced mesh itself
+                        ELSE IF e.op = "trace" THEN e.pre[1]      \* the chain goes on with the traced mesh itself
                         ELSE e.post[1]
         /\ i' = i + 1
 
